@@ -6,5 +6,8 @@ from .c03 import rule_recorded_vote
 # the sub-quorum the rule compares against is n-3f of the schedule's TOTAL weight (seed S6C02: Schedule::subquorum_threshold
 # computed from the leaders' weight only)
 from .c07 import rule_formulas
+# ... and the high votes must actually be REPORTED: the ReplicaTimeout a replica signs carries its recorded high vote and
+# highest commit certificate verbatim (seed S7C02: the vote withheld once a timeout certificate of its view exists)
+from .c05 import rule_timeout_content
 
-RULES = [("C03.6", rule_recorded_vote), ("C07.1", rule_formulas)]
+RULES = [("C03.6", rule_recorded_vote), ("C07.1", rule_formulas), ("C05.11", rule_timeout_content)]
